@@ -55,7 +55,8 @@ def network(args):
     """ one random small network; returns a trace: init registers + one ncon event holding the results for many contraction orders """
     import yastn
     from yastn import YastnError
-    sym, ferm, seed, maxorders = args
+    sym, ferm, seed, maxorders = args[:4]
+    unroll_mode = len(args) > 4 and args[4]          # C14: no swaps; contract_with_unroll over paths / unrollings / slicings added to the results
     rng = random.Random(seed)
     fixed = None
     if seed < 0:
@@ -137,13 +138,15 @@ def network(args):
     labels = sorted({l for q in inds for l in q})
     pos = [l for l in labels if l > 0]
     swaps = [list(x) for x in fixed[3]] if fixed else []
-    if cut is not None:
+    if unroll_mode:
+        swaps = []
+    elif cut is not None:
         left = [l for i in range(K) if i <= cut for l, _ in legs[i] if l <= 0]
         right = [l for i in range(K) if i > cut for l, _ in legs[i] if l <= 0]
         for _ in range(rng.choice((1, 2))):
             if left and right:
                 swaps.append([rng.choice(left), rng.choice(right)])
-    for _ in range(rng.choice((0, 1, 2, 3)) if not fixed else 0):
+    for _ in range(rng.choice((0, 1, 2, 3)) if not fixed and not unroll_mode else 0):
         x, y = rng.choice(labels), rng.choice(labels)
         if x != y:
             swaps.append([x, y])
@@ -181,6 +184,49 @@ def network(args):
                 results.append({'order': 'einsum %s order=%s' % (sub, od), 'out': 'YastnError'})
             except Exception as ex:  # noqa
                 results.append({'order': 'einsum %s' % sub, 'out': raise_site(ex)})
+    # contract_with_unroll: every contraction path and every unrolling / slicing of a label gives the same tensor (C14); labels that sit twice on one tensor (traces)
+    # are outside the interleaved einsum format
+    if unroll_mode and results and all(len(set(q)) == len(q) for q in inds) and cut is None and all(len(t.struct.t) > 0 for t in ts):      # (get_contraction_path cannot size an operand without blocks: observation, DESIGN 5.3)
+        outs = sorted([l for l in labels if l <= 0], reverse=True)
+        inter = []
+        for t, q in zip(ts, inds):
+            inter += [t, tuple('L%d' % l for l in q)]
+        inter.append(tuple('L%d' % l for l in outs))
+        leg_of = {}
+        for t, q in zip(ts, inds):
+            for ax, l in enumerate(q):
+                leg_of.setdefault('L%d' % l, t.get_legs(ax))
+        variants = [('no unroll', None)]
+        for _ in range(3):
+            lab = rng.choice(sorted(leg_of))
+            how = rng.choice(('sectors', 'uniform1', 'uniform2', 'two labels'))
+            if how == 'sectors':
+                variants.append(('unroll %s by sector' % lab, {lab: yastn.make_sliced_legs(leg_of[lab])}))
+            elif how == 'uniform1':
+                variants.append(('unroll %s in slices of 1' % lab, {lab: 1}))
+            elif how == 'uniform2':
+                variants.append(('unroll %s in slices of 2' % lab, {lab: 2}))
+            else:
+                lab2 = rng.choice(sorted(leg_of))
+                # (an operand ALL of whose labels are unrolled becomes a scalar per slice, which get_contraction_path cannot size: observation, DESIGN 5.3)
+                if lab2 != lab and not any(set('L%d' % l for l in q) <= {lab, lab2} for q in inds):
+                    variants.append(('unroll %s by sector and %s in slices of 1' % (lab, lab2), {lab: yastn.make_sliced_legs(leg_of[lab]), lab2: 1}))
+        for name, un in variants:
+            for opt in (('auto',) if un is not None and rng.random() < 0.5 else ('auto', 'greedy')):
+                try:
+                    import copy as _copy
+                    un1 = None if un is None else {k: (list(v) if isinstance(v, list) else v) for k, v in un.items()}
+                    un2 = None if un is None else {k: (list(v) if isinstance(v, list) else v) for k, v in un.items()}
+                    path, _ = yastn.get_contraction_path(*inter, unroll=un1, optimizer=opt) if opt != 'auto' else yastn.get_contraction_path(*inter, unroll=un1)
+                    fun = yastn.contract_with_unroll          # (the non-exported variant contract_with_unroll_compute_constants is not public API)
+                    r = fun(*inter, unroll=un2, optimize=path)
+                    if not isinstance(r, yastn.Tensor):
+                        r = yastn.Tensor(config=cfg, s=(), val=r) if False else r
+                    results.append({'order': 'contract_with_unroll %s optimizer=%s %s' % (name, opt, fun.__name__), 'out': 'ok', 'obs': T.alpha(r, sym)})
+                except YastnError as ex:
+                    results.append({'order': 'contract_with_unroll %s optimizer=%s' % (name, opt), 'out': 'YastnError'})
+                except Exception as ex:  # noqa
+                    results.append({'order': 'contract_with_unroll %s optimizer=%s' % (name, opt), 'out': raise_site(ex)})
     if results:
         ev.append({'op': 'ncon', 'ts': list(range(1, K + 1)), 'conjs': conjs, 'inds': inds, 'swaps': swaps, 'results': results, 'a': 1})
     return T.trace_dict(prog, knob, ev)
